@@ -33,6 +33,8 @@ RULE = ('complete enumeration of symmetric graphs on 1..5 vertices (1..6 thoroug
         'every directed graph on <= 3 vertices and every (8th in quick) directed graph on 4; public '
         'functions with NumPy-random weights -> validity oracles (scipy.sparse.csgraph).  Non-trivial: the graph has '
         'an edge; distinct = distinct (algorithm, graph, arguments).')
+RULE += (' '
+         'RCM also on the same pattern with nonsymmetric values.')
 TRUSTED = ['scipy.sparse.csgraph (oracle side only)', 'NumPy global RNG for the public randomised functions']
 PARTIAL = ['MIS-k, JP / LDF colourings, Bellman-Ford: theorems bounded to <= 4 vertices',
            'balanced Bellman-Ford, Lloyd clustering, center_nodes, floyd_warshall: oracle only']
